@@ -25,7 +25,7 @@ TDIR = os.path.join(vlib.COQ, "translate")
 _LEMMA = re.compile(r"^\s*Lemma\s+(TP_(\w+?)_eq)\b", re.M)
 # operations of Dbc/Parser.v (and below) that remain HAND MODEL ONLY, tied to the code by the differential run
 HAND_ONLY = ["Parser.nextToken / peekToken (p_look + Scanner.sc_scan)", "Parser.nextRune / peekRune (sc_Next / sc_peek)",
-             "Parser.useWhitespace (set_ws)", "Parser.string (string_loop: labelled loop over runes, strings.Builder)",
+             "Parser.useWhitespace (set_ws)", 
              "Parser.int (DecFloat.int_of_token: the F12 conversion arithmetic)", "Parser.anyOf (variadic range)",
              "Parser.failf / parseError (PErr; the error kind ESyntax / EValue is the model's classification of the message text)",
              "strconv.Atoi / ParseUint / ParseFloat (DecFloat.v; num oracle stream)",
@@ -35,9 +35,9 @@ HAND_ONLY = ["Parser.nextToken / peekToken (p_look + Scanner.sc_scan)", "Parser.
 TIE_TEXT = (" In addition the per-definition parsing code is REGENERATED from the source on every run: harness/parsetrans "
             "translates the parseFrom methods of pkg/dbc/def.go (monadic subset, go/types-checked) to Gallina in the state monad "
             "of Dbc/Parser.v and coq/translate/ParserEquiv.v re-proves, for all parser states, that each translated method equals "
-            "the hand model (lemmas TP_<Def>_parseFrom_eq); likewise 18 Parser helper methods of parser.go (TP_Parser_<method>_eq) and "
+            "the hand model (lemmas TP_<Def>_parseFrom_eq); likewise 19 Parser helper methods (Parser.string included) of parser.go (TP_Parser_<method>_eq) and "
             "the dispatch loop of Parse (TP_Parser_Parse_eq). Hand model only (differential run): nextToken/peekToken, "
-            "nextRune/peekRune, useWhitespace, string, int, anyOf, failf, strconv, the scanner.")
+            "nextRune/peekRune, useWhitespace, int, anyOf, failf, strconv, the scanner.")
 TIE_NOTE = (" Added trusted base of the parser translation tie: the translator harness/parsetrans/main.go (unverified Go program; "
             "its header states the reading of Go's semantics) and coq/translate/ParserGlue.v (Go struct field <-> Ast field).")
 TRUSTED = ("parser translation tie: the translator harness/parsetrans/main.go (unverified Go program; go/parser, go/types, "
